@@ -18,11 +18,30 @@ ASSIST = 'supp/assistant.py'
 UTIL = 'supp/util.py'
 
 
+def both_orders(build):
+    """Run a model under both set-iteration-order policies of the interpreter: a result that depends on the unspecified
+    iteration order of a set (or on object addresses) differs from the expected one under at least one of them."""
+    out = []
+    seen = {}
+    for order in ('fwd', 'rev'):
+        for tag, key, ok, msg, sample in build(order):
+            if (tag, key) in seen:
+                if ok or not out[seen[tag, key]][2]:
+                    continue
+                out[seen[tag, key]] = (tag, key, ok, msg + ' [with sets iterated in the opposite order: the result depends on the '
+                                       'unspecified iteration order of a set]', sample)
+            else:
+                seen[tag, key] = len(out)
+                out.append((tag, key, ok, msg, sample))
+    return out
+
+
 class Stubs(object):
-    def __init__(self, repo):
+    def __init__(self, repo, order='fwd'):
         self.repo = repo
         self.facts = get_facts(repo)
         self.it = Interp(repo, self.facts)
+        self.it.set_order = order
         self.it.memoise_cached = True
         self.it.reset_path([])
         self.blank = self.facts.classes.get('Unresolved') or self.facts.classes['Callable']
@@ -388,3 +407,624 @@ def all_names_model(repo):
         out.append(('all_names', 'all_names yields every stored binding once with its region', False,
                     'SourceScope.all_names raises %s' % e, None))
     return out
+
+
+# ---------------------------------------------------------------------------
+# assist
+# ---------------------------------------------------------------------------
+
+import string as _string
+
+IDENT_CHARS = set(_string.ascii_letters + _string.digits + '_')
+
+
+def ident_run(text):
+    i = len(text)
+    while i > 0 and text[i - 1] in IDENT_CHARS:
+        i -= 1
+    return text[i:]
+
+
+class AssistStubs(Stubs):
+    """Stubs for assistant.assist / assistant.location: the cursor finders, the analysis and the evaluator are
+    replaced; Source, the prefix computation, package-name arithmetic and the result formatting are interpreted."""
+    def __init__(self, repo, order='fwd'):
+        Stubs.__init__(self, repo, order)
+        env = self.it.module_env(ASSIST)
+        self.mark = self.it.lookup_global(UTIL, 'SOURCE_MARK')
+        if not isinstance(self.mark, str) or not self.mark:
+            raise AnalysisError('util.SOURCE_MARK is not a string constant')
+        self.marked_import = None
+        self.marked_name = None
+        self.marked_attr = None
+        self.value = None
+        self.decls = []
+        for fname, attr in (('get_marked_import', 'marked_import'), ('get_marked_name', 'marked_name'),
+                            ('get_marked_atribute', 'marked_attr'), ('get_marked_attribute', 'marked_attr')):
+            if fname in env or fname != 'get_marked_attribute':
+                env[fname] = Native(fname, lambda it, a, k, _f=fname, _a=attr: self._finder(_f, _a))
+        env['EvalCtx'] = Native('EvalCtx', lambda it, a, k: self.ctx)
+        self.ctx = self.obj(None, 'ctx', evaluate=Native('evaluate', self._evaluate),
+                            declarations=Native('declarations', self._declarations))
+        self.project = self.obj(None, 'project', norm_package=Native('norm_package', self._norm_package),
+                                list_packages=Native('list_packages', self._list_packages),
+                                get_nmodule=Native('get_nmodule', self._get_nmodule))
+        self.packages = {}
+        self.modules = {}
+        self.scope = Unknown('scope')
+
+    def _finder(self, fname, attr):
+        self.calls.append((fname,))
+        return getattr(self, attr)
+
+    def _evaluate(self, it, a, k):
+        self.calls.append(('evaluate', a[0]))
+        return self.value
+
+    def _declarations(self, it, a, k):
+        self.calls.append(('declarations', a[0]))
+        return list(self.decls)
+
+    def _norm_package(self, it, a, k):
+        self.calls.append(('norm_package', a[0], a[1] if len(a) > 1 else None))
+        if a[0] == 'unresolvable':
+            raise InterpRaise('ImportError', 'no such package')
+        return a[0]
+
+    def _list_packages(self, it, a, k):
+        self.calls.append(('list_packages', a[0]))
+        return set(self.packages.get(a[0], ()))
+
+    def _get_nmodule(self, it, a, k):
+        self.calls.append(('get_nmodule', a[0]))
+        if a[0] not in self.modules:
+            raise InterpRaise('ImportError', 'no module %s' % a[0])
+        return self.modules[a[0]]
+
+    def reset(self):
+        self.marked_import = self.marked_name = self.marked_attr = self.value = None
+        self.calls = []
+        self.decls = []
+
+    def assist(self, text, pos):
+        self.calls = []
+        try:
+            r = self.call(ASSIST, 'assist', self.project, text, pos, '/p/this.py')
+        except InterpRaise as e:
+            return None, '%s: %s' % (e.exc_name, e.msg)
+        return r, None
+
+    def name_node(self, ident, table, asked=None):
+        def names_at(it, a, k):
+            if asked is not None:
+                asked.append(a[0])
+            return table
+        flow = self.obj('Flow', 'region of the cursor', names_at=Native('names_at', names_at))
+        n = self.obj(None, 'marked name', id=ident, lineno=2, col_offset=4, flow=flow)
+        n.astcls = 'Name'
+        return n
+
+
+def assist_model(repo):
+    """-> records (tag, key, ok, msg, sample); tags: prefix, sorted, unique, clean, source, shape, pkg."""
+    return repo.memo('assist-model', lambda: both_orders(lambda order: _assist_model(repo, order)))
+
+
+def _assist_model(repo, order='fwd'):
+    st = AssistStubs(repo, order)
+    M = st.mark
+    out = []
+
+    def rec(tag, key, ok, msg, sample=None):
+        out.append((tag, key, bool(ok), msg, sample))
+
+    def pair(r):
+        return isinstance(r, tuple) and len(r) == 2 and isinstance(r[0], str) and isinstance(r[1], list)
+
+    # --- prefix: one probe per ASCII character, cursor in the middle line of three ----------------------------------
+    table = {'zeta': 1, 'alpha': 2}
+    probes = [chr(c) for c in range(32, 127)]
+    bad_shape = None
+    for c in probes:
+        if c in '\\':
+            left = 'xy = a' + c + 'bcd'
+        else:
+            left = 'xy = a' + c + 'bcd'
+        text = 'first_line = 1\n' + left + 'efg + tail\nthird_line = 3\n'
+        st.reset()
+        st.marked_name = st.name_node('bcd' + M + 'efg', table)
+        r, exc = st.assist(text, (2, len(left)))
+        want = ident_run(left)
+        if exc or not pair(r):
+            bad_shape = (c, exc or r)
+            rec('prefix', 'prefix after %r' % c, False, 'assist(%r, cursor after `bcd`) %s' % (left, exc or 'returns %r' % (r,)))
+            continue
+        rec('prefix', 'prefix after %r' % c, r[0] == want,
+            'with %r left of the cursor (and `efg` right of it) the prefix must be the trailing identifier run %r, got %r'
+            % (left, want, r[0]), 'prefix(%r) = %r' % (left, want))
+    for left in ('bcd', '', '    ', 'x = (', 'if a.b', 'x = "str bc', '# comment bc', 'x = 1;bc', '\tbc'):
+        st.reset()
+        st.marked_name = st.name_node('q' + M, table)
+        r, exc = st.assist('a = 1\n' + left + 'RIGHT\n', (2, len(left)))
+        want = ident_run(left)
+        rec('prefix', 'prefix of %r' % left, not exc and pair(r) and r[0] == want,
+            'with %r left of the cursor the prefix must be %r, got %s' % (left, want, exc or (r[0] if pair(r) else r)),
+            'prefix(%r) = %r' % (left, want))
+    for left, want_pkg in (('from pkg.su', 'pkg'), ('from pkg su', None), ('from .rel', '.'), ('from ', ''), ('from ..rel.x', None),
+                           ('    from pkg.sub.m', 'pkg.sub')):
+        st.reset()
+        st.packages = {'pkg': ['zz', 'aa'], '.': ['r1'], '': ['top1'], '..rel': ['x1'], 'pkg.sub': ['m1', 'm0']}
+        r, exc = st.assist(left, (1, len(left)))
+        want = ident_run(left)
+        rec('prefix', 'prefix of import line %r' % left, not exc and pair(r) and r[0] == want,
+            'on the import line %r the prefix must be %r, got %s' % (left, want, exc or (r[0] if pair(r) else r)),
+            'prefix(%r) = %r' % (left, want))
+        if want_pkg is not None and not exc and pair(r):
+            asked = [c[1] for c in st.calls if c[0] == 'list_packages']
+            rec('pkg', 'packages proposed on %r' % left, asked == [want_pkg] and r[1] == sorted(st.packages[want_pkg]),
+                'on the import line %r the sub-packages of %r must be proposed (sorted); asked %s, got %s'
+                % (left, want_pkg, asked, r[1]), '%r -> packages of %r' % (left, want_pkg))
+
+    # --- name branch: proposals are the keys of names_at(cursor) of the marked read's region ---------------------------
+    asked = []
+    table = {'zeta': 1, 'mid' + M + 'dle': 2, 'alpha': 3, 'middle': 4, 'beta': 5, 'Beta': 6, 'ALPHA': 7}
+    st.reset()
+    st.marked_name = st.name_node('mi' + M, table, asked)
+    left = 'x = mi'
+    r, exc = st.assist('a = 1\n' + left + '\n', (2, len(left)))
+    want = ['ALPHA', 'Beta', 'alpha', 'beta', 'middle', 'zeta']
+    if exc or not pair(r):
+        rec('shape', 'name branch returns (prefix, list)', False, 'assist on a bare name %s' % (exc or 'returns %r' % (r,)))
+    else:
+        got = r[1]
+        rec('source', 'name branch proposes the visible names at the cursor', set(unm(x, M) for x in got) == set(want)
+            and [tuple(a) for a in asked] == [(2, len(left))],
+            'for a cursor at the end of a bare name the proposals must be the keys of names_at(cursor position) of the '
+            'marked read\'s own region: asked names_at%s, proposed %s' % (asked, got), 'assist: marked.flow.names_at(position)')
+        rec('sorted', 'name branch sorted', got == sorted(got), 'proposals %s are not sorted' % got, 'sorted proposals')
+        rec('unique', 'name branch duplicate-free', len(got) == len(set(got)), 'proposals %s contain duplicates (a binding whose '
+            'identifier contains the cursor collapses with its plain form)' % got)
+        rec('clean', 'name branch carries no cursor marker', not any(M in x for x in got),
+            'proposals %s contain the internal cursor marker' % got, 'no marker in proposals')
+
+    # --- attribute branch -----------------------------------------------------------------------------------------------
+    for label, container in (('list with duplicates', ['beta', 'alpha', 'beta', 'x' + M + 'y', 'xy', 'Alpha']),
+                             ('dict', {'beta': 1, 'alpha': 2, 'x' + M + 'y': 3, 'Beta': 4}),
+                             ('set', {'beta', 'alpha', 'x' + M + 'y', 'Alpha', 'BETA'})):
+        st.reset()
+        vnode = st.obj(None, 'expr')
+        vnode.astcls = 'Name'
+        anode = st.obj(None, 'marked attribute', value=vnode, attr='al' + M)
+        anode.astcls = 'Attribute'
+        st.marked_attr = anode
+        got_ctx = []
+        st.value = st.obj(None, 'value of expr',
+                          attr_list=Native('attr_list', lambda it, a, k, _c=container: (got_ctx.append(a), _c)[1]))
+        left = 'x = expr.al'
+        r, exc = st.assist(left + '\n', (1, len(left)))
+        if exc or not pair(r):
+            rec('shape', 'attribute branch returns (prefix, list) [%s]' % label, False,
+                'assist after `expr.` %s' % (exc or 'returns %r' % (r,)))
+            continue
+        got = r[1]
+        ev = [c[1] for c in st.calls if c[0] == 'evaluate']
+        rec('source', 'attribute branch proposes attr_list of the evaluated expression [%s]' % label,
+            set(unm(x, M) for x in got) == set(unm(x, M) for x in container) and ev == [vnode],
+            'for a cursor after `expr.` the proposals must be the attributes of evaluate(expr): evaluated %s, proposed %s' % (ev, got),
+            'assist: evaluate(attr.value).attr_list(ctx)')
+        rec('sorted', 'attribute branch sorted [%s]' % label, got == sorted(got), 'proposals %s are not sorted' % got)
+        rec('unique' if label != 'list with duplicates' else 'unique-sink', 'attribute branch duplicate-free [%s]' % label,
+            len(got) == len(set(got)), 'proposals %s contain duplicates' % got)
+        rec('clean', 'attribute branch carries no cursor marker [%s]' % label, not any(M in x for x in got),
+            'proposals %s contain the internal cursor marker' % got)
+    st.reset()
+    vnode = st.obj(None, 'expr')
+    anode = st.obj(None, 'marked attribute', value=vnode, attr=M)
+    anode.astcls = 'Attribute'
+    st.marked_attr = anode
+    st.value = None
+    r, exc = st.assist('x = expr.\n', (1, 9))
+    rec('shape', 'attribute of an unknown value', not exc and r == ('', []), 'assist after `expr.` where expr evaluates to nothing must '
+        'return ("", []); got %s' % (exc or (r,)))
+    st.reset()
+    r, exc = st.assist('x = 1 + \n', (1, 8))
+    rec('shape', 'no name at the cursor', not exc and r == ('', []), 'assist where no name is marked must return ("", []); got %s'
+        % (exc or (r,)))
+
+    # --- import branches ----------------------------------------------------------------------------------------------------
+    st.reset()
+    st.packages = {'pkg': ['zz', 'aa']}
+    st.marked_import = ('pkg.a', None)
+    r, exc = st.assist('import pkg.a\n', (1, 12))
+    rec('pkg', 'import pkg.a| proposes the packages of pkg', not exc and r == ('a', ['aa', 'zz']),
+        '`import pkg.a|` must give ("a", sorted sub-packages of pkg); got %s' % (exc or (r,)))
+    st.reset()
+    st.packages = {'pkg': ['zz', 'aa']}
+    st.marked_import = ('pkg.abcd', None)
+    r, exc = st.assist('import pkg.abcd\n', (1, 13))
+    rec('prefix', 'prefix inside an imported name', not exc and pair(r) and r[0] == 'ab',
+        'for `import pkg.ab|cd` the prefix is `ab` (text left of the cursor), not the whole last component; got %s' % (exc or (r,)))
+    st.reset()
+    st.packages = {'pkg': ['zz', 'aa', 'dup', 'cls']}
+    st.modules = {'pkg': st.obj(None, 'module pkg', attr_list=Native('attr_list', lambda it, a, k: {'fn', 'dup', 'Cls'}))}
+    st.marked_import = ('pkg', 'f')
+    r, exc = st.assist('from pkg import f\n', (1, 17))
+    rec('pkg', 'from pkg import f| proposes sub-packages and module members', not exc and pair(r) and r[0] == 'f'
+        and sorted(set(unm(x, M) for x in r[1])) == ['Cls', 'aa', 'cls', 'dup', 'fn', 'zz'],
+        '`from pkg import f|` must propose the sub-packages and the members of pkg; got %s' % (exc or (r,)))
+    if not exc and pair(r):
+        rec('sorted', 'from-import branch sorted', r[1] == sorted(r[1]), 'proposals %s are not sorted' % r[1])
+        rec('unique', 'from-import branch duplicate-free', len(r[1]) == len(set(r[1])), 'proposals %s contain duplicates (a name that '
+            'is both a sub-package and a member)' % r[1])
+    st.reset()
+    st.packages = {'pkg': ['zz', 'aa']}
+    st.modules = {}
+    st.marked_import = ('pkg', 'f')
+    r, exc = st.assist('from pkg import f\n', (1, 17))
+    rec('pkg', 'from pkg import f| with an unimportable pkg', not exc and r == ('f', ['aa', 'zz']),
+        'an unimportable module in `from pkg import f|` must still give the sub-packages; got %s' % (exc or (r,)))
+    st.reset()
+    st.marked_import = ('unresolvable.x', None)
+    r, exc = st.assist('import unresolvable.x\n', (1, 21))
+    rec('pkg', 'unresolvable package gives no proposals', not exc and r == ('x', []) or (not exc and pair(r) and r[1] == []),
+        'a package that cannot be normalised must give an empty proposal list, not an exception; got %s' % (exc or (r,)))
+    return out
+
+
+def unm(x, mark):
+    return x.replace(mark, '') if isinstance(x, str) else x
+
+
+# ---------------------------------------------------------------------------
+# location (go to definition)
+# ---------------------------------------------------------------------------
+
+def location_model(repo):
+    return repo.memo('location-model', lambda: both_orders(lambda order: _location_model(repo, order)))
+
+
+def _flat(x):
+    for e in x:
+        if isinstance(e, list):
+            for y in _flat(e):
+                yield y
+        else:
+            yield e
+
+
+def _location_model(repo, order='fwd'):
+    st = AssistStubs(repo, order)
+    out = []
+
+    def rec(tag, key, ok, msg, sample=None):
+        out.append((tag, key, bool(ok), msg, sample))
+
+    def run(text, pos):
+        st.calls = []
+        try:
+            return st.call(ASSIST, 'location', st.project, text, pos, '/p/this.py'), None
+        except InterpRaise as e:
+            return None, '%s: %s' % (e.exc_name, e.msg)
+
+    def nm(label, decl, fname, loc=None):
+        return st.obj('AssignedName', label, name=label, declared_at=decl, location=loc or (decl[0], decl[1] + 7), filename=fname,
+                      value_node=None)
+
+    n1 = nm('one', (11, 4), '/p/a.py')
+    n2 = nm('two', (22, 8), '/p/b.py')
+    n3 = nm('three', (33, 0), '/p/c.py')
+    n4 = nm('four', (44, 2), '/p/d.py')
+    runtime = st.obj('RuntimeName', 'builtin without position', name='len')
+    node = st.name_node('x', {})
+    # single definition, then a group of alternatives, then an import chain element
+    st.reset()
+    st.marked_name = node
+    st.decls = [n1, [n2, n3], n4]
+    r, exc = run('x\n', (1, 1))
+    want = [{'loc': (11, 4), 'file': '/p/a.py'}, [{'loc': (22, 8), 'file': '/p/b.py'}, {'loc': (33, 0), 'file': '/p/c.py'}],
+            {'loc': (44, 2), 'file': '/p/d.py'}]
+    asked = [c[1] for c in st.calls if c[0] == 'declarations']
+    rec('pairs', 'each definition is reported with its own declared_at and file', not exc and r == want,
+        'go-to-definition on declarations [one@(11,4) a.py, [two@(22,8) b.py, three@(33,0) c.py], four@(44,2) d.py] must give '
+        'exactly these positions, each paired with the file of the same object, in the same order and grouping; got %s'
+        % (exc or r,), "location: {'loc': n.declared_at, 'file': n.filename} per declaration, alternatives grouped in order")
+    rec('asks', 'location asks for the declarations of the marked node', asked == [node],
+        'location must ask EvalCtx.declarations for the marked name; asked %s' % asked)
+    # objects without a source position are left out, the others keep their order
+    st.reset()
+    st.marked_name = node
+    st.decls = [runtime, n1, [n2, runtime, n3]]
+    r, exc = run('x\n', (1, 1))
+    flat = [x for x in _flat(r) if x is not None] if r is not None else None
+    rec('pairs', 'objects without a position do not disturb the others', not exc and flat == [want[0]] + want[1],
+        'a runtime object among the declarations must not produce a position and must not disturb the other entries; got %s'
+        % (exc or r,))
+    # the analysed source has the cursor marker spliced in: positions of *its* bindings right of the cursor on the cursor
+    # line are shifted by the marker's length in the analysis and must be reported in the coordinates of the user's file
+    ML = len(st.mark)
+    marked_top = st.obj('SourceScope', 'scope of the marked source', source=st.obj(None, 'source', filename='/p/this.py'))
+    marked_top.attrs['top'] = marked_top
+    fscope = st.obj('FuncScope', 'function in the marked source', top=marked_top, parent=marked_top)
+    disk_top = st.obj('SourceScope', 'same file loaded from disk', source=st.obj(None, 'source', filename='/p/this.py'))
+    disk_top.attrs['top'] = disk_top
+
+    def nm2(label, decl, scope):
+        o = st.obj('AssignedName', label, name=label, declared_at=decl, location=(decl[0], decl[1] + 7), value_node=None, scope=scope)
+        return o
+    right = nm2('right of the cursor', (3, 30 + ML), fscope)
+    leftn = nm2('left of the cursor', (3, 2), fscope)
+    below = nm2('on a later line', (4, 30), fscope)
+    other = nm2('same line in the unmarked copy', (3, 30), disk_top)
+    st.reset()
+    st.scope = marked_top
+    st.marked_name = node
+    st.decls = [[leftn, right, below], other]
+    r, exc = run('a\nb\n  xx = f(x); yyyyyyyyyyyyyyyyyyyyyy = 1\n', (3, 11))
+    wantm = [[{'loc': (3, 2), 'file': '/p/this.py'}, {'loc': (3, 30), 'file': '/p/this.py'}, {'loc': (4, 30), 'file': '/p/this.py'}],
+             {'loc': (3, 30), 'file': '/p/this.py'}]
+    rec('marker-shift', 'positions right of the cursor are reported in the coordinates of the unmarked file', not exc and r == wantm,
+        'with the cursor at (3, 11), bindings of the analysed (cursor-marked) source at marked columns 2, 30+%d (line 3) and 30 (line 4) '
+        'and a binding of an unmarked copy at (3, 30) must be reported at columns 2, 30, 30 and 30: the marker spliced in at the '
+        'cursor shifts only the analysed source\'s own positions right of the cursor on its line; got %s' % (ML, exc or r),
+        'location: column - len(marker) for the marked source right of the cursor')
+    # attribute node when no name is marked
+    st.reset()
+    anode = st.obj(None, 'marked attribute', value=node, attr='attr')
+    anode.astcls = 'Attribute'
+    st.marked_attr = anode
+    st.decls = [n2]
+    r, exc = run('x.attr\n', (1, 6))
+    asked = [c[1] for c in st.calls if c[0] == 'declarations']
+    rec('asks', 'location falls back to the marked attribute', not exc and r == [want[1][0]] and asked == [anode],
+        'with no marked name, location must ask for the declarations of the marked attribute; asked %s, got %s' % (asked, exc or r))
+    st.reset()
+    r, exc = run('1 + 2\n', (1, 2))
+    rec('asks', 'nothing marked gives no location', not exc and r == [], 'location where nothing is marked must return []; got %s'
+        % (exc or r,))
+    # import branches
+    mod = st.obj('SourceModule', 'module pkg.sub', name='pkg.sub')
+    member = nm('member', (5, 4), '/p/pkg/sub.py')
+    mod.attrs['get_attr'] = Native('get_attr', lambda it, a, k: member if a[1] == 'member' else None)
+    st.reset()
+    st.modules = {'pkg.sub': mod, 'pkg': st.obj('SourceModule', 'module pkg', name='pkg',
+                                                get_attr=Native('get_attr', lambda it, a, k: None))}
+    st.marked_import = ('pkg.sub', None)
+    st.decls = [n3]
+    r, exc = run('import pkg.sub\n', (1, 12))
+    asked = [c[1] for c in st.calls if c[0] == 'declarations']
+    rec('import', '`import pkg.sub|` goes to the module', not exc and asked == [mod] and r == [want[1][1]],
+        '`import pkg.sub|` must ask for the declarations of module pkg.sub; asked %s, got %s' % (asked, exc or r))
+    st.marked_import = ('pkg.sub', 'member')
+    r, exc = run('from pkg.sub import member\n', (1, 24))
+    asked = [c[1] for c in st.calls if c[0] == 'declarations']
+    rec('import', '`from pkg.sub import member|` goes to the member', not exc and asked == [member],
+        '`from pkg.sub import member|` must ask for the declarations of the member binding; asked %s, got %s' % (asked, exc or r))
+    st.marked_import = ('pkg', 'sub')
+    r, exc = run('from pkg import sub\n', (1, 17))
+    asked = [c[1] for c in st.calls if c[0] == 'declarations']
+    rec('import', '`from pkg import sub|` falls back to the sub-module', not exc and asked == [mod],
+        '`from pkg import sub|` where pkg has no attribute sub must go to the module pkg.sub; asked %s, got %s' % (asked, exc or r))
+    st.marked_import = ('nowhere', None)
+    r, exc = run('import nowhere\n', (1, 12))
+    rec('import', 'an unimportable module gives no location', not exc and r == [],
+        '`import nowhere|` must return [] (ImportError handled); got %s' % (exc or r,))
+    return out
+
+
+# ---------------------------------------------------------------------------
+# EvalCtx.evaluate / declarations
+# ---------------------------------------------------------------------------
+
+EVAL = 'supp/evaluator.py'
+
+
+class EvalStubs(Stubs):
+    def __init__(self, repo, order='fwd'):
+        Stubs.__init__(self, repo, order)
+
+    def ctx(self):
+        return self.it.instantiate(self.cls('EvalCtx'), [Unknown('project')], {})
+
+    def sentinel(self, label='sentinel value'):
+        return self.obj('Object', label)
+
+    def ast_name(self, ident, table, asked=None):
+        def names_at(it, a, k):
+            if asked is not None:
+                asked.append(a[0])
+            return table
+        flow = self.obj('Flow', 'region', names_at=Native('names_at', names_at))
+        n = self.obj(None, 'read ' + ident, id=ident, lineno=7, col_offset=3, flow=flow)
+        n.astcls = 'Name'
+        return n
+
+    def run(self, ctx, meth, *args):
+        self.it.steps = 0
+        try:
+            return self.it.call(self.it.getattr(ctx, meth), list(args), {}), None
+        except InterpRaise as e:
+            return None, '%s: %s' % (e.exc_name, e.msg)
+
+
+def evaluate_model(repo):
+    return repo.memo('evaluate-model', lambda: both_orders(lambda order: _evaluate_model(repo, order)))
+
+
+def _evaluate_model(repo, order='fwd'):
+    st = EvalStubs(repo, order)
+    facts = st.facts
+    out = []
+
+    def rec(tag, key, ok, msg, sample=None):
+        out.append((tag, key, bool(ok), msg, sample))
+    S = st.sentinel()
+    # --- AST forms -----------------------------------------------------------------------------------------------------
+    asked = []
+    n = st.ast_name('x', {'x': S, 'y': st.sentinel('other')}, asked)
+    r, exc = st.run(st.ctx(), 'evaluate', n)
+    rec('dispatch', 'evaluate(ast.Name)', r is S and [tuple(a) for a in asked] == [(7, 3)],
+        'a name read must evaluate to the value of the entry names_at(its position) holds for its identifier; asked %s, got %s'
+        % (asked, exc or r), 'evaluate(Name) -> evaluate(names_at(np(node))[id])')
+    r, exc = st.run(st.ctx(), 'evaluate', st.ast_name('x', {'y': S}))
+    rec('dispatch', 'evaluate(ast.Name) of an unknown identifier', not exc and r is None,
+        'a read whose identifier is absent from the table evaluates to nothing; got %s' % (exc or r,))
+    recv = st.obj('Object', 'receiver value', get_attr=Native('get_attr', lambda it, a, k: S if a[1] == 'attr' else None))
+    an = st.obj(None, 'attribute node', value=recv, attr='attr')
+    an.astcls = 'Attribute'
+    r, exc = st.run(st.ctx(), 'evaluate', an)
+    rec('dispatch', 'evaluate(ast.Attribute)', r is S, 'expr.attr must evaluate to evaluate(expr).get_attr(ctx, "attr") evaluated; '
+        'got %s' % (exc or r,), 'evaluate(Attribute) -> evaluate(evaluate(value).get_attr(attr))')
+    fn = st.obj('FuncObject', 'callee', call=Native('call', lambda it, a, k: S))
+    cn = st.obj(None, 'call node', func=fn)
+    cn.astcls = 'Call'
+    r, exc = st.run(st.ctx(), 'evaluate', cn)
+    rec('dispatch', 'evaluate(ast.Call)', r is S, 'f(...) must evaluate to evaluate(f).call(ctx); got %s' % (exc or r,),
+        'evaluate(Call) -> evaluate(func).call(ctx)')
+    kn = st.obj(None, 'constant node', value=42, s=42)
+    kn.astcls = 'Constant'
+    r, exc = st.run(st.ctx(), 'evaluate', kn)
+    rec('dispatch', 'evaluate(ast.Constant)', isinstance(r, Obj) and r.cls.name == 'RuntimeName',
+        'a literal must evaluate to a RuntimeName wrapping its value; got %s' % (exc or r,), 'evaluate(Constant) -> RuntimeName')
+    # --- supp classes ---------------------------------------------------------------------------------------------------
+    nd = 0
+    for c in sorted(facts.classes.values(), key=lambda c: c.name):
+        names = [k.name for k in c.mro()]
+        if c.name in ('Resolvable', 'Object', 'Callable', 'Name', 'UndefinedName'):
+            continue
+        if c.name == 'AssignedName':
+            o = st.obj(c.name, 'an AssignedName', value_node=S, resolve=Native('resolve', lambda it, a, k: None))
+            want, how = S, 'evaluate(node.value_node)'
+        elif c.name == 'ImportedName':
+            inner = st.obj('AssignedName', 'binding in the imported module', value_node=S)
+            o = st.obj(c.name, 'an ImportedName', resolve=Native('resolve', lambda it, a, k, _i=inner: _i))
+            want, how = S, 'evaluate(node.resolve(ctx))'
+        elif c.name == 'MultiName':
+            a1 = st.obj('AssignedName', 'alt 1', value_node=S)
+            S2 = st.sentinel('second value')
+            a2 = st.obj('AssignedName', 'alt 2', value_node=S2)
+            a3 = st.obj('AssignedName', 'alt 3 (no value)', value_node=None)
+            o = st.obj(c.name, 'a MultiName', valid_names=[a1, a2, a3], alt_names=[a1, a2, a3])
+            r, exc = st.run(st.ctx(), 'evaluate', o)
+            vals = r.attrs.get('values') if isinstance(r, Obj) else None
+            nd += 1
+            rec('dispatch', 'evaluate(MultiName)', isinstance(r, Obj) and r.cls.name == 'CompositeValue' and vals == [S, S2],
+                'a multiply-bound name must evaluate to the composite of the values of all its alternatives, in order; got %s %s'
+                % (exc or r, vals), 'evaluate(MultiName) -> CompositeValue([evaluate(n) for n in valid_names])')
+            continue
+        elif 'Resolvable' in names:
+            o = st.obj(c.name, 'a ' + c.name, resolve=Native('resolve', lambda it, a, k: S))
+            want, how = S, 'node.resolve(ctx)'
+        elif 'Object' in names:
+            o = st.obj(c.name, 'a ' + c.name)
+            want, how = o, 'node'
+        else:
+            continue
+        nd += 1
+        r, exc = st.run(st.ctx(), 'evaluate', o)
+        rec('dispatch', 'evaluate(%s)' % c.name, r is want, 'a %s handed to EvalCtx.evaluate must give %s; got %s (the dispatch chain '
+            'is order sensitive)' % (c.name, how, exc or r), 'evaluate(%s) -> %s' % (c.name, how))
+    rec('dispatch-count', 'dispatch candidates', nd >= 14, 'only %d supp classes were dispatched' % nd)
+    # re-entrancy guard
+    loop = st.obj('AssignedName', 'x = x')
+    loop.attrs['value_node'] = loop
+    r, exc = st.run(st.ctx(), 'evaluate', loop)
+    rec('guard', 'evaluate terminates on a self-referential binding', not exc and r is None,
+        'evaluate of a binding whose value is itself must return nothing; got %s' % (exc or r,))
+    ctx = st.ctx()
+    st.run(ctx, 'evaluate', st.obj('AssignedName', 'x', value_node=S))
+    rec('guard', 'the in-progress set is empty after evaluate returns', ctx.attrs.get('nodes') in (set(), None) or not ctx.attrs.get('nodes'),
+        'after evaluate returns its in-progress set must be empty; holds %s' % (ctx.attrs.get('nodes'),))
+    return out
+
+
+def declarations_model(repo):
+    return repo.memo('declarations-model', lambda: both_orders(lambda order: _declarations_model(repo, order)))
+
+
+def _declarations_model(repo, order='fwd'):
+    st = EvalStubs(repo, order)
+    out = []
+
+    def rec(tag, key, ok, msg, sample=None):
+        out.append((tag, key, bool(ok), msg, sample))
+
+    def nm(label, line):
+        return st.obj('AssignedName', label, name='v', location=(line, 5), declared_at=(line, 4), value_node=None)
+    a, b, c = nm('first', 3), nm('second', 5), nm('third', 9)
+    mk_multi = lambda alts: st.it.call(st.it.lookup_global('supp/name.py', 'MultiName'), [list(alts)], {})
+    # plain name
+    asked = []
+    r, exc = st.run(st.ctx(), 'declarations', st.ast_name('v', {'v': a}, asked), [])
+    rec('single', 'declarations(read) of a single binding', r == [a] and [tuple(x) for x in asked] == [(7, 3)],
+        'the declarations of a read bound once are [that binding], looked up at the read\'s own position; asked %s got %s'
+        % (asked, exc or r), 'declarations(Name) -> [names_at(np(node))[id]]')
+    # union: every alternative, in source order
+    for perm in ([c, a, b], [b, c, a], [a, b, c]):
+        mn = mk_multi(perm)
+        r, exc = st.run(st.ctx(), 'declarations', st.ast_name('v', {'v': mn}), [])
+        rec('alts', 'declarations(read) of three alternatives (given %s)' % '/'.join(x.label for x in perm), r == [[a, b, c]],
+            'the declarations of a read with three alternative bindings must list all three in source order as one group; got %s'
+            % (exc or r,), 'declarations(MultiName) -> [all valid alternatives in source order]')
+    und = st.it.instantiate(st.cls('UndefinedName'), ['v'], {})
+    r, exc = st.run(st.ctx(), 'declarations', st.ast_name('v', {'v': mk_multi([b, und, a])}), [])
+    rec('alts', 'the undefined marker is not a declaration', r == [[a, b]], 'a name bound on two of three paths has two declarations; got %s'
+        % (exc or r,))
+    r, exc = st.run(st.ctx(), 'declarations', st.ast_name('v', {'v': mk_multi([b, und])}), [])
+    rec('alts', 'one valid alternative is reported plainly', r == [b], 'a name bound on one of two paths has one declaration; got %s'
+        % (exc or r,))
+    # import chain
+    imp = st.obj('ImportedName', 'import', name='v', location=(1, 0), declared_at=(1, 7), resolve=Native('resolve', lambda it, a_, k: a))
+    r, exc = st.run(st.ctx(), 'declarations', st.ast_name('v', {'v': imp}), [])
+    rec('chain', 'an import is followed to the imported binding', r == [imp, a],
+        'the declarations of an imported name are the import and then what it imports; got %s' % (exc or r,),
+        'declarations(ImportedName) -> [import, its target...]')
+    cyc = st.obj('ImportedName', 'import of itself', name='v', location=(1, 0), declared_at=(1, 7))
+    cyc.attrs['resolve'] = Native('resolve', lambda it, a_, k: cyc)
+    try:
+        r, exc = st.run(st.ctx(), 'declarations', cyc, [])
+    except Uninterpretable as e:
+        r, exc = None, 'no termination (%s)' % e
+    rec('cycle', 'an import cycle terminates', r == [cyc], 'the declarations of an import resolving to itself must be [that import]; got %s'
+        % (exc or r,))
+    # attribute
+    recv = st.obj('Object', 'receiver value', get_attr=Native('get_attr', lambda it, a_, k: b if a_[1] == 'attr' else None))
+    an = st.obj(None, 'attribute node', value=recv, attr='attr')
+    an.astcls = 'Attribute'
+    r, exc = st.run(st.ctx(), 'declarations', an, [])
+    rec('single', 'declarations(expr.attr)', r == [b], 'the declarations of expr.attr are those of evaluate(expr).get_attr("attr"); got %s'
+        % (exc or r,))
+    # instance attribute assigned in several places
+    mv = st.obj('MultiValue', 'self.x assigned twice', values=[a, b])
+    r, exc = st.run(st.ctx(), 'declarations', mv, [])
+    rec('alts', 'declarations(MultiValue) lists every assignment', r == [[a, b]],
+        'an attribute assigned twice has both assignments as declarations; got %s' % (exc or r,))
+    return out
+
+
+def multiname_order_model(repo):
+    """MultiName built (through supp's constructor) from the same alternatives given in every order, nested and with
+    repetitions: alt_names must be the distinct alternatives in source order."""
+    def build(order):
+        import itertools
+        st = EvalStubs(repo, order)
+        alts = [st.obj('AssignedName', 'alt@%d' % ln, name='v', location=(ln, 5), declared_at=(ln, 4), value_node=None)
+                for ln in (3, 5, 9)]
+        mk = lambda xs: st.it.call(st.it.lookup_global('supp/name.py', 'MultiName'), [list(xs)], {})
+        out = []
+        for perm in itertools.permutations(alts):
+            try:
+                got = st.it.getattr(mk(perm), 'alt_names')
+            except InterpRaise as e:
+                got = str(e)
+            out.append(('order', 'alternatives given as %s' % '/'.join(x.label for x in perm), got == alts,
+                        'the alternatives of a multiply-bound name must be listed in source order whatever order the regions '
+                        'contribute them in; got %s' % (got,), 'alt_names of %s = source order' % '/'.join(x.label for x in perm)))
+        try:
+            got = st.it.getattr(mk([alts[2], mk([alts[1], alts[0]]), alts[1]]), 'alt_names')
+        except InterpRaise as e:
+            got = str(e)
+        out.append(('order', 'nested union with a repeated alternative', got == alts,
+                    'a union of a binding and a union sharing an alternative must list each distinct alternative once, in source '
+                    'order; got %s' % (got,), 'nested/repeated alternatives flatten to source order'))
+        return out
+    return repo.memo('multiname-order-model', lambda: both_orders(build))
